@@ -21,7 +21,7 @@ META = dict(
     level_note='task-level schedules, plus (race-* jobs) one pre-emption by another thread - a send, a failure of the connection from a non-event-loop thread, the offloaded error thread - at any acquire/release of the connection lock reached while no lock is held; event-loop work (responses, pages, first-response handling, decode/protocol errors) never overlaps itself; the failure is otherwise injected between events, not between two bytecodes of send_msg; the offloaded error thread is run as a deferred task; transport and codec are harness fakes',
     technique='symbolic execution (sx proxies) of the real Connection.defunct/error_all_requests/process_msg/send_msg over solver-enumerated event histories + z3 validity per path',
     bounds=dict(quick='<= 3 requests + <= 1 continuous paging session, histories of <= 5 events, failure kinds {socket error, socket error while a send is inside push(), decode error, ProtocolException response, close()}, CALLBACK_ERR_THREAD_THRESHOLD patched to 2; race jobs: 2 requests, histories of <= 4 events + 1 pre-emption',
-                thorough='<= 4 requests, histories of <= 8 events; race jobs: <= 3 requests, <= 6 events + 1 pre-emption'),
+                thorough='<= 4 requests, histories of <= 8 events; race jobs: <= 3 requests, <= 6 events + 1 pre-emption; race2 jobs: 2 requests, <= 4 events + 2 pre-emptions'),
     assumptions=['a reactor reports a socket error by calling defunct(); close() behaves like the asyncore/libev reactors (errors all requests with ConnectionShutdown unless already defunct)'],
     stubs=['transport: harness kit', 'protocol codec: identity', 'threading.Thread in cassandra.connection: deferred task'],
     outside=['failure between two statements of send_msg (sync-point-level schedules)', 'heartbeat-detected failures (C44)'],
@@ -80,7 +80,7 @@ def _rows(tag, last=False):
     return r
 
 
-def h_history(V, steps=5, nreq=3, with_cp=True, race=False):
+def h_history(V, steps=5, nreq=3, with_cp=True, race=False, budget=1):
     world = kit.World()
     DeferredThread.pending = []
     cconn.Thread = DeferredThread
@@ -88,12 +88,12 @@ def h_history(V, steps=5, nreq=3, with_cp=True, race=False):
     Connection.CALLBACK_ERR_THREAD_THRESHOLD = 2
     cconn.ContinuousPagingSession = CPSession
     try:
-        return _run(V, world, steps, nreq, with_cp, race)
+        return _run(V, world, steps, nreq, with_cp, race, budget)
     finally:
         Connection.CALLBACK_ERR_THREAD_THRESHOLD = old_thr
 
 
-def _run(V, world, steps, nreq, with_cp, race=False):
+def _run(V, world, steps, nreq, with_cp, race=False, budget=1):
     conn = kit.FakeConnection('10.0.0.1', protocol_version=4)
     wire = Wire(world)
     got = {}         # tag -> list of things delivered to its callback
@@ -211,7 +211,7 @@ def _run(V, world, steps, nreq, with_cp, race=False):
     if race:
         # at any acquire/release of the connection's lock reached while the running thread holds no lock, another
         # thread performs one event of its own: a send, a response, a failure of the connection, the offloaded error thread
-        pre = kit.Preempter(V, None, lambda *a: do('_pre%d' % pre.used), only_unlocked=True)
+        pre = kit.Preempter(V, None, lambda *a: do('_pre%d' % pre.used), only_unlocked=True, budget=budget)
         conn.lock = kit.SchedLock('connection.lock', pre)
     for step in range(steps):
         do(step)
@@ -280,5 +280,10 @@ def jobs(tier):
     for first in range(3):
         js.append(Job('race-f%d' % first, 'h_history', dict(steps=6 if th else 4, nreq=3 if th else 2, with_cp=False, race=True), dict(o, pin={'ev1': first})))
     js.append(Job('race-cp', 'h_history', dict(steps=6 if th else 4, nreq=2, with_cp=True, race=True), dict(o, pin={'ev0': 0})))
+    if th:
+        # two pre-emptions per history
+        for first in range(3):
+            js.append(Job('race2-f%d' % first, 'h_history', dict(steps=4, nreq=2, with_cp=False, race=True, budget=2), dict(o, pin={'ev1': first})))
+        js.append(Job('race2-cp', 'h_history', dict(steps=4, nreq=2, with_cp=True, race=True, budget=2), dict(o, pin={'ev0': 0})))
     js.append(Job('no-cp', 'h_history', dict(steps=6 if th else 5, nreq=3, with_cp=False), o))
     return js
